@@ -432,15 +432,13 @@ theorem decryptRecipient_doc (P : Prims) (hP : JwePrimErrs P) (E : Env)
         intro _ _
         apply Doc.bind (checkKeyOp_doc E.ops r.key "deriveKey" hderive hkey)
         intro _ _
-        simp only
-        split
-        · intro e he
-          simp [bind, Except.bind] at he
-          subst he; rfl
-        · apply Doc.bind (Doc.pure _)
-          intro _ _
-          apply Doc.bind (hP.pbkdf2 _ _ _ _ _)
-          intro _ _
+        apply Doc.bind
+        · unfold pbes2Kek
+          simp only
+          split
+          · exact Doc.error _ rfl
+          · exact hP.pbkdf2 _ _ _ _ _
+        · intro _ _
           exact unwrapWith_doc P hP _ _ _
 
 /-! ## Header check, content decryption, decompression -/
